@@ -222,10 +222,13 @@ class Source:
             fn_name, self._line_of(o + 1 + s0), self._line_of(o + 1 + e0), ' '.join(header.split())[:80]))
         return item
 
-    def block_slice(self, open_re, header, name):
+    def block_slice(self, open_re, header, name, within_fn=None):
         """R6 (block form): the statements of the block opened at the end of the line matching open_re
-        (e.g. a match arm `Self::Subshell(..) => {`), wrapped as `header { <bytes> }`."""
+        (e.g. a match arm `Self::Subshell(..) => {`), wrapped as `header { <bytes> }`.  within_fn restricts the search to one fn."""
         ms = list(re.compile(open_re, re.M).finditer(self.text))
+        if within_fn:
+            fb, fo, fe = fn_span(self.text, within_fn)
+            ms = [m for m in ms if fo <= m.start() < fe]
         if len(ms) != 1:
             raise ExtractError('slice anchor %s: %s /%s/ (%d matches)' % ('lost' if not ms else 'ambiguous', self.rel, open_re, len(ms)))
         m = ms[0]
